@@ -599,7 +599,14 @@ class Renderer:
         return self._r(a, form)
 
     def render(self, a):
-        return join_tokens(self.tokens(a), wordops=self.tab.word_ops())
+        toks = self.tokens(a)
+        if self.rnd is not None and self.rnd.random() < 0.3:
+            # a random layout: some boundaries glued (where R-TOK reads the same), the others filled with blanks, tabs, CR, LF --
+            # also between a function name and its `(`
+            r = self.rnd
+            ws = lambda: "".join(r.choice(" \t\r\n") for _ in range(r.randint(1, 3)))
+            return join_tokens(toks, rnd=r, compact=r.choice([0.0, 0.5, 0.9]), ws=ws if r.random() < 0.6 else None, table=self.tab)
+        return join_tokens(toks, wordops=self.tab.word_ops())
 
     def _decide(self, a, form):
         k = a[0]
@@ -1100,7 +1107,8 @@ class Evaluator:
         if op in ("AND", "OR"):
             items = self.need(x, "l")
             if not items:
-                raise Abstain("AND/OR of an empty list")
+                # identity elements, like the empty sum and product: AND of nothing is true, OR of nothing is false
+                return ("b", op == "AND")
             decided = None
             for it in items:
                 if it[0] != "b":
